@@ -496,7 +496,9 @@ class C18(core.Check):
         "(T_C18_clear_view_canonical), vertex objects at one position (merged patches) are returned together "
         "(T_C18_duplicates_together), get_common_point rejects with DegenerateGeometryError only (repair 70219c0); round 6c: "
         "under the hull contract (validator c18.contract, no view involved) every returning run, ties and dubious views "
-        "included, is one of the 48 relabellings and right-handed (T_C18_returns_relabelling). Only "
+        "included, is one of the 48 relabellings and right-handed (T_C18_returns_relabelling); round 6d: the finder points of "
+        "the four fan disk classes are the rim / non-rim positions in every placement (T_C18_disk_finder_points, "
+        "T_C18_disk_find), every rejection is a DegenerateGeometryError (T_C18_rejects_documented). Only "
         "validator/oracle-checked: that the returned numbering of a block with warped sides satisfies Canonical "
         "as stated on the side area vectors (the theorem is stated on the hull triangles), that views without a clear winner on blocks whose adjacent sides are less than 60 degrees apart give one of the 48 relabellings, and that scipy's hull is a "
         "triangulation of the six sides (hypothesis of the theorem, decided per case)."
